@@ -223,6 +223,15 @@ fn module_ref(rng: &mut Rng, from_dir: &str, target_rel: &str) -> Option<String>
     }
 }
 
+/// One link of the workspace plugin's module chain: `from .name import *` or `pytest_plugins = ["myplug.name"]`.
+fn plug_link(rng: &mut Rng, name: &str, target: &str) -> Item {
+    if rng.chance(350) {
+        Item::Plugins { modules: vec![format!("myplug.{}", name)], targets: vec![Some(target.to_string())] }
+    } else {
+        Item::Star { module: format!(".{}", name), target: Some(target.to_string()) }
+    }
+}
+
 fn fixture_names_of(f: &PyFile) -> Vec<String> {
     f.items
         .iter()
@@ -582,10 +591,12 @@ pub fn add_venv(rng: &mut Rng, spec: &mut WsSpec, names: &[String]) {
                 // the plugin reaches the helper through one more module, so a conftest that imports the helper directly
                 // gets there a round earlier in the import scan
                 let mid = "plugsrc/myplug/mid.py".to_string();
-                spec.files.push(PyFile { rel: mid.clone(), items: vec![Item::Star { module: ".shared".into(), target: Some(shared.clone()) }, Item::Fixture(Fx { func: "mid_only".into(), ..Default::default() })] });
-                plugin_items.insert(0, Item::Star { module: ".mid".into(), target: Some(mid) });
+                // (each link of the chain is a star import or, in a third of the cases, a `pytest_plugins` declaration)
+                let l1 = plug_link(rng, "shared", &shared);
+                spec.files.push(PyFile { rel: mid.clone(), items: vec![l1, Item::Fixture(Fx { func: "mid_only".into(), ..Default::default() })] });
+                plugin_items.insert(0, plug_link(rng, "mid", &mid));
             } else {
-                plugin_items.insert(0, Item::Star { module: ".shared".into(), target: Some(shared.clone()) });
+                plugin_items.insert(0, plug_link(rng, "shared", &shared));
             }
             if rng.chance(450) {
                 // ... and that helper star-imports a second one: plugin status has to propagate along the chain
@@ -593,7 +604,8 @@ pub fn add_venv(rng: &mut Rng, spec: &mut WsSpec, names: &[String]) {
                 let deep = "plugsrc/myplug/deep.py".to_string();
                 spec.files.push(PyFile { rel: deep.clone(), items: vec![Item::Fixture(Fx { func: "deep_only".into(), ..Default::default() }), Item::Fixture(Fx { func: rng.pick(names).clone(), ..Default::default() })] });
                 if let Some(sf) = spec.files.iter_mut().find(|f| f.rel == shared) {
-                    sf.items.insert(0, Item::Star { module: ".deep".into(), target: Some(deep) });
+                    let l = plug_link(rng, "deep", &deep);
+                    sf.items.insert(0, l);
                 }
             }
             let confs: Vec<usize> = spec.files.iter().enumerate().filter(|(_, f)| f.rel.ends_with("/conftest.py") && !f.rel.starts_with('.') && !f.rel.starts_with("plugsrc")).map(|(i, _)| i).collect();
